@@ -347,6 +347,39 @@ func runC20(r *core.Run) {
 				}
 				n := ref.Prod(shape)
 				av, bv, _ := ewVals(d, n, "id")
+				// fused multiply-add with special scalars (0, -1, 2) over operands with infinities, NaN and signed zeros
+				ev, _, _ := ewVals(d, n, "edge")
+				dvv := make([]interface{}, n)
+				for i := range dvv {
+					dvv[i] = d.Code(i%4 + 1)
+				}
+				for _, k := range []int{0, -1, 2} {
+					for _, la := range lays {
+						es, d, shape, k, la := es, d, shape, k, la
+						id := fmt.Sprintf("C20|arith|%s|FMAScalar|%s|%s|edge*%d|a=%s|b=C", es.name, d.Name, shapeStr(shape), k, la)
+						if r.ReplayCase != "" && id != r.ReplayCase {
+							continue
+						}
+						r.Case(id, n >= 2, func() *core.Fail {
+							tensor.VerifResetPools()
+							ob, ok := c20Arith(d, es.e, "FMAScalar", shape, la, "C", "fma", ev, ev, dvv, d.Code(k))
+							if !ok {
+								return nil
+							}
+							tensor.VerifResetPools()
+							std, _ := c20Arith(d, tensor.StdEng{}, "FMAScalar", shape, la, "C", "fma", ev, ev, dvv, d.Code(k))
+							r.Op(2)
+							r.Outcome("fma-edge:" + es.name + ":" + ob.class + "/" + std.class)
+							if ob.class != std.class {
+								return core.F("config-divergence", "class", "FMA(a, %d, y) on edge values: %s %s, StdEng %s", k, es.name, ob.class, std.class)
+							}
+							if ob.class == "ok" && (!sameVals(std.vals, ob.vals) || !sameVals(std.dAft, ob.dAft)) {
+								return core.F("config-divergence", "values", "FMA(a, %d, y) with a = %s: %s delivers %s, StdEng %s", k, ref.FmtEls(ev), es.name, ref.FmtEls(ob.vals), ref.FmtEls(std.vals))
+							}
+							return nil
+						})
+					}
+				}
 				for _, op := range []string{"Add", "Sub", "Mul", "Div"} {
 					for _, mode := range []string{"reuse=a", "reuse=b", "mismatch"} {
 						for _, la := range lays {
